@@ -1,7 +1,9 @@
-(* C10 -- proofs about the instrumented evaluator Eql/Trace.v:
+(* C10 -- proofs about the instrumented evaluator Eql/Trace.v (quantifiers included):
+   0. the log only grows; the scratch list of an Exists call is written by that call only;
    1. bridge: it hands out exactly the rows of the list-monad model Eql/Eval.v, in order, and the n-stopped run the first n;
    2. the log of a run that stops earlier is a prefix of the log of a run that stops later;
-   3. every domain is consumed as the prefix 0, 1, 2, ... (each element pulled at most once, in order). *)
+   3. every domain is consumed as the prefix 0, 1, 2, ... (each element pulled at most once, in order);
+   4. the same over sequences of evaluations that share variables. *)
 From Coq Require Import List ZArith Bool Arith Lia.
 From Krrood Require Import Eql.Syntax Eql.Sat Eql.Eval Eql.TraceSpec Eql.Trace.
 Import ListNotations.
@@ -62,175 +64,8 @@ Lemma map_snd_indexed {A} (l : list A) : forall n, map snd (combine (seq n (leng
 Proof. induction l as [|a l IH]; intros n; simpl; [reflexivity|]. now rewrite IH. Qed.
 
 (* ================= 1. simulation by the list-monad model ================= *)
-Section Sim.
-  Variable W : world.
-  Variable D : domains.
-  Variable T : Type.
-  Variable R : store -> T -> Prop.
-  Hypothesis R_ev : forall e s t, is_yield e = false -> R s t -> R (e :: s) t.
 
-  Definition R2 (o : store * signal) (o' : T * signal) : Prop := snd o = snd o' /\ R (fst o) (fst o').
-  Definition ksim {A} (k : A -> store -> store * signal) (k' : A -> T -> T * signal) : Prop :=
-    forall a s t, R s t -> R2 (k a s) (k' a t).
-
-  Lemma R_touch x i s t : R s t -> R (touch x i s) t.
-  Proof. unfold touch. intros H. destruct (i <? npulls x s); auto. Qed.
-  Lemma R_finish x s t : R s t -> R (finish x s) t.
-  Proof. unfold finish. intros H. destruct (ended x s); auto. Qed.
-  Lemma R_get v a s t : R s t -> R (get_ev v a s) t.
-  Proof. unfold get_ev. intros H. destruct v; auto. Qed.
-
-  Lemma andthen_sim o o' f f' :
-    R2 o o' -> (forall s t, R s t -> R2 (f s) (f' t)) -> R2 (andthen o f) (andthen o' f').
-  Proof.
-    destruct o as [s sg], o' as [t sg']. intros [H1 H2] Hf. simpl in *. subst sg'.
-    destruct sg; simpl; [apply Hf; auto | split; auto].
-  Qed.
-
-  Lemma each_sim {A B} (g : A -> B) (f : A -> store -> store * signal) (k' : B -> T -> T * signal) l :
-    (forall a s t, R s t -> R2 (f a s) (k' (g a) t)) ->
-    forall s t, R s t -> R2 (each f l s) (each k' (map g l) t).
-  Proof.
-    intros H. induction l as [|a l IH]; intros s t HR; simpl; [split; auto|].
-    apply andthen_sim; auto.
-  Qed.
-
-  Lemma enum_sim x (k : val -> store -> store * signal) (k' : val -> T -> T * signal) :
-    ksim k k' -> forall s t, R s t -> R2 (enum D x k s) (each k' (D x) t).
-  Proof.
-    intros Hk s t HR. unfold enum, indexed.
-    rewrite <- (andthen_ret (each k' (D x) t)).
-    apply andthen_sim.
-    - replace (each k' (D x) t) with (each k' (map snd (combine (seq 0 (length (D x))) (D x))) t)
-        by (now rewrite map_snd_indexed).
-      apply each_sim; auto.
-      intros iv s0 t0 H0. apply Hk. apply R_touch; auto.
-    - intros s' t' H'. split; simpl; auto. apply R_finish; auto.
-  Qed.
-
-  Lemma opnd_sim e : forall b (k : binds * val -> store -> store * signal) k',
-    ksim k k' -> forall s t, R s t -> R2 (tr_opnd W D e b k s) (each k' (ev_opnd W D e b) t).
-  Proof.
-    induction e as [v|x|e IH a]; intros b k k' Hk s t HR; simpl.
-    - rewrite andthen_ret. apply Hk; auto.
-    - destruct (lookup b x) as [v|].
-      + rewrite each_one. apply Hk; auto.
-      + rewrite each_map. apply enum_sim; auto. intros v s0 t0 H0. apply Hk; auto.
-    - rewrite each_map. apply IH; auto. intros p s0 t0 H0. apply Hk. apply R_get; auto.
-  Qed.
-
-  Lemma cond_sim c : qfree c = true -> forall b (k : res -> store -> store * signal) k',
-    ksim k k' -> forall s t, R s t -> R2 (tr_cond W D c b k s) (each k' (eval W D c b) t).
-  Proof.
-    induction c as [op l r|l IHl r IHr|l IHl r IHr|l IHl r IHr|c IH|e c IH|y c IH]; intros Hq b k k' Hk s t HR;
-      simpl in Hq; try discriminate; try (apply andb_true_iff in Hq; destruct Hq as [Hql Hqr]).
-    - simpl. unfold ev_cmp. destruct (right_first b r); rewrite each_flat_map.
-      + apply opnd_sim; auto. intros p1 s1 t1 H1. rewrite each_map. apply opnd_sim; auto.
-        intros p2 s2 t2 H2. apply Hk; auto.
-      + apply opnd_sim; auto. intros p1 s1 t1 H1. rewrite each_map. apply opnd_sim; auto.
-        intros p2 s2 t2 H2. apply Hk; auto.
-    - simpl. rewrite each_flat_map. apply IHl; auto. intros p s1 t1 H1. destruct (snd p).
-      + rewrite each_one. apply Hk; auto.
-      + apply IHr; auto.
-    - simpl. rewrite each_flat_map. apply IHl; auto. intros p s1 t1 H1. destruct (snd p).
-      + apply IHr; auto.
-      + rewrite each_one. apply Hk; auto.
-    - simpl. rewrite each_app. apply andthen_sim.
-      + rewrite each_flat_map. apply IHl; auto. intros p s1 t1 H1. destruct (snd p).
-        * apply IHr; auto.
-        * rewrite each_one. apply Hk; auto.
-      + intros s' t' H'. rewrite each_filter. apply IHr; auto.
-        intros p s1 t1 H1. destruct (snd p); simpl; [split; auto | apply Hk; auto].
-    - simpl. rewrite each_map. apply IH; auto. intros p s1 t1 H1. apply Hk; auto.
-  Qed.
-
-  Lemma select_sim sels : forall b (k : list val -> store -> store * signal) k',
-    ksim k k' -> forall s t, R s t -> R2 (tr_select W D sels b k s) (each k' (select W D sels b) t).
-  Proof.
-    induction sels as [|e ss IH]; intros b k k' Hk s t HR; simpl.
-    - rewrite andthen_ret. apply Hk; auto.
-    - rewrite each_flat_map. apply opnd_sim; auto. intros p s1 t1 H1. rewrite each_map.
-      apply IH; auto. intros row s2 t2 H2. apply Hk; auto.
-  Qed.
-
-  Lemma run_sim q (k : list val -> store -> store * signal) k' :
-    qfree_o (q_cond q) = true -> ksim k k' ->
-    forall s t, R s t -> R2 (tr_run W D q k s) (each k' (run W D q) t).
-  Proof.
-    intros Hq Hk s t HR. unfold tr_run, run, true_results.
-    destruct (q_cond q) as [c|]; simpl in Hq.
-    - rewrite each_flat_map, each_map, each_filter.
-      apply cond_sim; auto. intros p s1 t1 H1. destruct (snd p); simpl.
-      + split; auto.
-      + apply select_sim; auto.
-    - simpl. rewrite app_nil_r. apply select_sim; auto.
-  Qed.
-End Sim.
-
-(* ---- instance: the rows handed out ---- *)
-Lemma rows_of_app a b : rows_of (a ++ b) = rows_of a ++ rows_of b.
-Proof. induction a as [|e a IH]; simpl; [reflexivity|]. destruct e; simpl; rewrite ?IH; reflexivity. Qed.
-Lemma rows_of_rev s : rows_of (rev s) = rev (rows_of s).
-Proof.
-  induction s as [|e s IH]; simpl; [reflexivity|]. rewrite rows_of_app, IH.
-  destruct e; simpl; rewrite ?app_nil_r; reflexivity.
-Qed.
-Lemma nyields_rows s : nyields s = length (rows_of s).
-Proof. unfold nyields. induction s as [|e s IH]; simpl; [reflexivity|]. destruct e; simpl; auto. Qed.
-Lemma rows_of_nonyield e s : is_yield e = false -> rows_of (e :: s) = rows_of s.
-Proof. destruct e; simpl; auto; discriminate. Qed.
-
-Definition take' (n : nat) (row : list val) (t : list (list val)) : list (list val) * signal :=
-  let t' := row :: t in (t', if n <=? length t' then Stop else Continue).
-Definition take_all' (row : list val) (t : list (list val)) : list (list val) * signal := (row :: t, Continue).
-
-Lemma each_take' n l : forall t, length t < n -> fst (each (take' n) l t) = rev (firstn (n - length t) l) ++ t.
-Proof.
-  induction l as [|a l IH]; intros t Ht; simpl.
-  - now rewrite firstn_nil.
-  - destruct (Nat.leb_spec n (S (length t))); simpl.
-    + replace (n - length t) with 1 by lia. reflexivity.
-    + rewrite IH by (simpl; lia). simpl length.
-      replace (n - length t) with (S (n - S (length t))) by lia. simpl. now rewrite <- app_assoc.
-Qed.
-Lemma each_take_all' l : forall t, fst (each take_all' l t) = rev l ++ t.
-Proof. induction l as [|a l IH]; intros t; simpl; [reflexivity|]. rewrite IH. now rewrite <- app_assoc. Qed.
-
-Section Bridge.
-  Variable W : world.
-  Variable D : domains.
-  Let R (s : store) (t : list (list val)) : Prop := rows_of s = t.
-
-  Lemma R_ev_rows : forall e s t, is_yield e = false -> R s t -> R (e :: s) t.
-  Proof. unfold R. intros e s t He <-. apply rows_of_nonyield; auto. Qed.
-
-  Lemma take_sim n : ksim (list (list val)) R (take n) (take' n).
-  Proof.
-    intros row s t H. unfold R in *. unfold take, take', R2. simpl. subst t.
-    rewrite nyields_rows. simpl. split; reflexivity.
-  Qed.
-  Lemma take_all_sim : ksim (list (list val)) R take_all take_all'.
-  Proof. intros row s t H. unfold R in *. unfold take_all, take_all', R2. simpl. subst t. split; reflexivity. Qed.
-
-  (* the instrumented evaluator hands out exactly the rows of the list-monad model, in order *)
-  Theorem trace_full_rows q : qfree_o (q_cond q) = true -> rows_of (trace_full W D q) = run W D q.
-  Proof.
-    intros Hq. unfold trace_full. rewrite rows_of_rev.
-    destruct (run_sim W D _ R R_ev_rows q take_all take_all' Hq take_all_sim [] [] eq_refl) as [_ H].
-    unfold R in H. rewrite H, each_take_all', app_nil_r. apply rev_involutive.
-  Qed.
-
-  (* the run stopped after n rows handed out the first n rows *)
-  Theorem trace_k_rows q n : qfree_o (q_cond q) = true -> rows_of (trace_k W D q n) = firstn n (run W D q).
-  Proof.
-    intros Hq. destruct n as [|n]; [reflexivity|]. unfold trace_k. rewrite rows_of_rev.
-    destruct (run_sim W D _ R R_ev_rows q (take (S n)) (take' (S n)) Hq (take_sim (S n)) [] [] eq_refl) as [_ H].
-    unfold R in H. rewrite H, each_take' by (simpl; lia). simpl length. rewrite Nat.sub_0_r, app_nil_r.
-    apply rev_involutive.
-  Qed.
-End Bridge.
-
-(* ================= 2. stopping earlier gives a prefix of the log ================= *)
+(* ================= 0. the log only grows ================= *)
 Definition Ext (s s' : store) : Prop := exists l, s' = l ++ s.
 Lemma Ext_refl s : Ext s s. Proof. exists []; reflexivity. Qed.
 Lemma Ext_trans a b c : Ext a b -> Ext b c -> Ext a c.
@@ -281,7 +116,42 @@ Proof.
   apply andthen_rel; auto. intros s'. apply each_mono; auto.
 Qed.
 
-Section Prefix.
+Lemma each_stop {S A} (l : list A) (s : S) : fst (each (fun _ s0 => (s0, Stop)) l s) = s.
+Proof. destruct l; reflexivity. Qed.
+
+Lemma Ext_length s s' : Ext s s' -> length s <= length s'.
+Proof. intros [l ->]. rewrite app_length. lia. Qed.
+
+(* the loop of ForAll, for any evaluator of its condition whose log only grows *)
+Section ForAllMono.
+  Variable trc : binds -> (res -> store -> store * signal) -> store -> store * signal.
+  Variable evalc : binds -> list res.
+  Variable y : var.
+  Variable others : list var.
+  Hypothesis trc_mono : forall b k, kmono k -> forall s, Ext s (fst (trc b k s)).
+
+  Lemma drain_full_mono b s : Ext s (drain_full trc b s).
+  Proof. unfold drain_full. apply trc_mono. intros a s1. apply Ext_refl. Qed.
+  Lemma drain_first_mono b s : Ext s (drain_first trc b s).
+  Proof. unfold drain_first. apply trc_mono. intros a s1. apply Ext_refl. Qed.
+  Lemma narrow_events_mono bv ss : forall s, Ext s (narrow_events trc bv ss s).
+  Proof.
+    unfold narrow_events. induction ss as [|s1 ss IH]; intros s; simpl; [apply Ext_refl|].
+    eapply Ext_trans; [apply drain_first_mono | apply IH].
+  Qed.
+  Lemma fa_step_mono bv S s : Ext s (snd (fa_step trc evalc others bv S s)).
+  Proof. destruct S; simpl; [apply narrow_events_mono | apply drain_full_mono]. Qed.
+  Lemma fa_loop_mono b ivs : forall S s, Ext s (snd (fa_loop trc evalc y others b ivs S s)).
+  Proof.
+    induction ivs as [|iv rest IH]; intros S s; simpl; [apply Ext_finish|].
+    pose proof (fa_step_mono ((y, snd iv) :: b) S (touch y (fst iv) s)) as H.
+    destruct (fst (fa_step trc evalc others ((y, snd iv) :: b) S (touch y (fst iv) s))); simpl.
+    - eapply Ext_trans; [apply Ext_touch | exact H].
+    - eapply Ext_trans; [apply Ext_touch|]. eapply Ext_trans; [exact H | apply IH].
+  Qed.
+End ForAllMono.
+
+Section Mono.
   Variable W : world.
   Variable D : domains.
 
@@ -302,15 +172,24 @@ Section Prefix.
 
   Lemma cond_mono c : forall b k, kmono k -> forall s, Ext s (fst (tr_cond W D c b k s)).
   Proof.
-    induction c as [op l r|l IHl r IHr|l IHl r IHr|l IHl r IHr|c IH|e c IH|y c IH]; intros b k Hk s; simpl;
-      try apply Ext_refl.
+    induction c as [op l r|l IHl r IHr|l IHl r IHr|l IHl r IHr|c IH|e c IH|y c IH]; intros b k Hk s; simpl.
     - destruct (right_first b r); apply opnd_mono; intros p1 s1; apply opnd_mono; intros p2 s2; apply Hk.
     - apply IHl. intros p s1. destruct (snd p); [apply Hk | apply IHr; auto].
     - apply IHl. intros p s1. destruct (snd p); [apply IHr; auto | apply Hk].
     - apply andthen_mono.
       + apply IHl. intros p s1. destruct (snd p); [apply IHr; auto | apply Hk].
-      + intros s'. apply IHr; auto. intros p s1. destruct (snd p); [apply Ext_refl | apply Hk].
+      + intros s'. eapply Ext_trans; [apply Ext_cons|]. apply IHr; auto. intros p s1. destruct (snd p); [apply Ext_refl | apply Hk].
     - apply IH. intros p s1. apply Hk.
+    - eapply Ext_trans; [apply Ext_cons|]. apply IH. intros p s1. destruct (snd p); [apply Ext_refl|].
+      destruct (existsb _ _); [apply Ext_refl|]. eapply Ext_trans; [apply Ext_cons | apply Hk].
+    - destruct (lookup b y).
+      + pose proof (fa_step_mono (tr_cond W D c) (eval W D c) (remove_var y (cond_vars c)) (fun b0 k0 H0 => IH b0 k0 H0)
+                                 b None s) as H.
+        eapply Ext_trans; [exact H | apply each_mono; auto].
+      + pose proof (fa_loop_mono (tr_cond W D c) (eval W D c) y (remove_var y (cond_vars c)) (fun b0 k0 H0 => IH b0 k0 H0)
+                                 b (indexed (D y)) None s) as H.
+        destruct (fst (fa_loop _ _ _ _ _ _ _ _)); [|eapply Ext_trans; [exact H | apply Hk]].
+        eapply Ext_trans; [exact H | apply each_mono; auto].
   Qed.
 
   Lemma select_mono sels : forall b k, kmono k -> forall s, Ext s (fst (tr_select W D sels b k s)).
@@ -323,6 +202,521 @@ Section Prefix.
     intros Hk s. unfold tr_run. destruct (q_cond q) as [c|]; [|apply select_mono; auto].
     apply cond_mono. intros p s1. destruct (snd p); [apply Ext_refl | apply select_mono; auto].
   Qed.
+  Lemma take_mono n : kmono (take n).
+  Proof. intros row s. unfold take. simpl. apply Ext_cons. Qed.
+  Lemma take_all_mono : kmono take_all.
+  Proof. intros row s. unfold take_all. simpl. apply Ext_cons. Qed.
+End Mono.
+
+(* ================= 0b. the scratch list of an Exists call is written by that call only ================= *)
+Definition is_note (n : nat) (e : event) : bool := match e with Note m _ => Nat.eqb n m | _ => false end.
+Lemma notes_cons_other n e s : is_note n e = false -> notes n (e :: s) = notes n s.
+Proof. destruct e; simpl; auto. intros H. now rewrite H. Qed.
+
+(* [Q n s s']: the log grew and frame n's scratch list is untouched *)
+Definition Q (n : nat) (s s' : store) : Prop := Ext s s' /\ notes n s' = notes n s.
+Lemma Q_refl n s : Q n s s. Proof. split; [apply Ext_refl | reflexivity]. Qed.
+Lemma Q_trans n a b c : Q n a b -> Q n b c -> Q n a c.
+Proof. intros [E1 N1] [E2 N2]. split; [eapply Ext_trans; eauto | congruence]. Qed.
+Lemma Q_cons n e s : is_note n e = false -> Q n s (e :: s).
+Proof. intros H. split; [apply Ext_cons | apply notes_cons_other; auto]. Qed.
+Lemma Q_touch n x i s : Q n s (touch x i s).
+Proof. unfold touch. destruct (i <? npulls x s); [apply Q_refl | apply Q_cons; reflexivity]. Qed.
+Lemma Q_finish n x s : Q n s (finish x s).
+Proof. unfold finish. destruct (ended x s); [apply Q_refl | apply Q_cons; reflexivity]. Qed.
+Lemma Q_get n v a s : Q n s (get_ev v a s).
+Proof. unfold get_ev. destruct v; try apply Q_refl. apply Q_cons; reflexivity. Qed.
+Lemma Q_length n s s' : Q n s s' -> length s <= length s'.
+Proof. intros [E _]. apply Ext_length; auto. Qed.
+
+Definition kq {A} (n : nat) (k : A -> store -> store * signal) : Prop :=
+  forall a s, n < length s -> Q n s (fst (k a s)).
+
+Lemma andthen_Q n s (o : store * signal) f :
+  n < length s -> Q n s (fst o) -> (forall s', n < length s' -> Q n s' (fst (f s'))) -> Q n s (fst (andthen o f)).
+Proof.
+  destruct o as [s1 [|]]; simpl; intros Hn H Hf; auto.
+  eapply Q_trans; [exact H | apply Hf]. pose proof (Q_length _ _ _ H). lia.
+Qed.
+Lemma each_Q {A} n (f : A -> store -> store * signal) l : kq n f -> forall s, n < length s -> Q n s (fst (each f l s)).
+Proof.
+  intros Hf. induction l as [|a l IH]; intros s Hn; simpl; [apply Q_refl|].
+  apply andthen_Q; auto.
+Qed.
+
+Section ForAllQuiet.
+  Variable trc : binds -> (res -> store -> store * signal) -> store -> store * signal.
+  Variable evalc : binds -> list res.
+  Variable y : var.
+  Variable others : list var.
+  Variable n : nat.
+  Hypothesis trc_q : forall b k, kq n k -> forall s, n < length s -> Q n s (fst (trc b k s)).
+
+  Lemma drain_full_Q b s : n < length s -> Q n s (drain_full trc b s).
+  Proof. intros Hn. unfold drain_full. apply trc_q; auto. intros a s1 H1. apply Q_refl. Qed.
+  Lemma drain_first_Q b s : n < length s -> Q n s (drain_first trc b s).
+  Proof. intros Hn. unfold drain_first. apply trc_q; auto. intros a s1 H1. apply Q_refl. Qed.
+  Lemma narrow_events_Q bv ss : forall s, n < length s -> Q n s (narrow_events trc bv ss s).
+  Proof.
+    unfold narrow_events. induction ss as [|s1 ss IH]; intros s Hn; simpl; [apply Q_refl|].
+    pose proof (drain_first_Q (bv ++ s1) s Hn) as H. eapply Q_trans; [exact H | apply IH].
+    pose proof (Q_length _ _ _ H). lia.
+  Qed.
+  Lemma fa_step_Q bv S s : n < length s -> Q n s (snd (fa_step trc evalc others bv S s)).
+  Proof. intros Hn. destruct S; simpl; [apply narrow_events_Q | apply drain_full_Q]; auto. Qed.
+  Lemma fa_loop_Q b ivs : forall S s, n < length s -> Q n s (snd (fa_loop trc evalc y others b ivs S s)).
+  Proof.
+    induction ivs as [|iv rest IH]; intros S s Hn; simpl; [apply Q_finish|].
+    pose proof (Q_touch n y (fst iv) s) as H0.
+    assert (Hn1 : n < length (touch y (fst iv) s)) by (pose proof (Q_length _ _ _ H0); lia).
+    pose proof (fa_step_Q ((y, snd iv) :: b) S _ Hn1) as H.
+    destruct (fst (fa_step trc evalc others ((y, snd iv) :: b) S (touch y (fst iv) s))); simpl.
+    - eapply Q_trans; eauto.
+    - eapply Q_trans; [exact H0|]. eapply Q_trans; [exact H | apply IH]. pose proof (Q_length _ _ _ H). lia.
+  Qed.
+End ForAllQuiet.
+
+Section Quiet.
+  Variable W : world.
+  Variable D : domains.
+  Variable n : nat.
+
+  Lemma enum_Q x (k : val -> store -> store * signal) : kq n k -> forall s, n < length s -> Q n s (fst (enum D x k s)).
+  Proof.
+    intros Hk s Hn. unfold enum. apply andthen_Q; auto.
+    - apply each_Q; auto. intros iv s0 H0. pose proof (Q_touch n x (fst iv) s0) as H.
+      eapply Q_trans; [exact H | apply Hk]. pose proof (Q_length _ _ _ H). lia.
+    - intros s' H'. simpl. apply Q_finish.
+  Qed.
+
+  Lemma opnd_Q e : forall b (k : binds * val -> store -> store * signal), kq n k ->
+    forall s, n < length s -> Q n s (fst (tr_opnd W D e b k s)).
+  Proof.
+    induction e as [v|x|e IH a]; intros b k Hk s Hn; simpl.
+    - apply Hk; auto.
+    - destruct (lookup b x); [apply Hk; auto|]. apply enum_Q; auto. intros v s0 H0. apply Hk; auto.
+    - apply IH; auto. intros p s1 H1. pose proof (Q_get n (snd p) a s1) as H.
+      eapply Q_trans; [exact H | apply Hk]. pose proof (Q_length _ _ _ H). lia.
+  Qed.
+
+  Lemma cond_Q c : forall b (k : res -> store -> store * signal), kq n k ->
+    forall s, n < length s -> Q n s (fst (tr_cond W D c b k s)).
+  Proof.
+    induction c as [op l r|l IHl r IHr|l IHl r IHr|l IHl r IHr|c IH|e c IH|y c IH]; intros b k Hk s Hn; simpl.
+    - destruct (right_first b r); apply opnd_Q; auto; intros p1 s1 H1; apply opnd_Q; auto; intros p2 s2 H2; apply Hk; auto.
+    - apply IHl; auto. intros p s1 H1. destruct (snd p); [apply Hk; auto | apply IHr; auto].
+    - apply IHl; auto. intros p s1 H1. destruct (snd p); [apply IHr; auto | apply Hk; auto].
+    - apply andthen_Q; auto.
+      + apply IHl; auto. intros p s1 H1. destruct (snd p); [apply IHr; auto | apply Hk; auto].
+      + intros s' H'. eapply Q_trans; [apply (Q_cons n Pass); reflexivity|]. apply IHr; [|simpl; lia]. intros p s1 H1. destruct (snd p); [apply Q_refl | apply Hk; auto].
+    - apply IH; auto. intros p s1 H1. apply Hk; auto.
+    - assert (Hne : Nat.eqb n (length s) = false) by (apply Nat.eqb_neq; lia).
+      eapply Q_trans; [apply (Q_cons n (Frame (length s))); reflexivity|].
+      apply IH; [|simpl; lia]. intros p s1 H1. destruct (snd p); [apply Q_refl|].
+      destruct (existsb _ _); [apply Q_refl|].
+      eapply Q_trans; [apply (Q_cons n (Note (length s) (map (lookup (fst p)) (exists_others e c))) s1); simpl; exact Hne | apply Hk; simpl; lia].
+    - destruct (lookup b y).
+      + pose proof (fa_step_Q (tr_cond W D c) (eval W D c) (remove_var y (cond_vars c)) n (fun b0 k0 H0 => IH b0 k0 H0)
+                              b None s Hn) as H. simpl in H.
+        eapply Q_trans; [exact H | apply each_Q; auto]. pose proof (Q_length _ _ _ H). lia.
+      + pose proof (fa_loop_Q (tr_cond W D c) (eval W D c) y (remove_var y (cond_vars c)) n (fun b0 k0 H0 => IH b0 k0 H0)
+                              b (indexed (D y)) None s Hn) as H.
+        pose proof (Q_length _ _ _ H) as HL.
+        destruct (fst (fa_loop _ _ _ _ _ _ _ _)); [|eapply Q_trans; [exact H | apply Hk; lia]].
+        eapply Q_trans; [exact H | apply each_Q; auto; lia].
+  Qed.
+
+  Lemma select_Q sels : forall b (k : list val -> store -> store * signal), kq n k ->
+    forall s, n < length s -> Q n s (fst (tr_select W D sels b k s)).
+  Proof.
+    induction sels as [|e ss IH]; intros b k Hk s Hn; simpl; [apply Hk; auto|].
+    apply opnd_Q; auto. intros p s1 H1. apply IH; auto. intros row s2 H2. apply Hk; auto.
+  Qed.
+End Quiet.
+
+(* ================= 1. simulation by the list-monad model ================= *)
+(* frame tags are positions in the log: every scratch entry belongs to a frame opened earlier *)
+Definition tags_lt (s : store) : Prop := forall n key, In (Note n key) s -> n < length s.
+Lemma tags_lt_nil : tags_lt []. Proof. intros n key []. Qed.
+Lemma notes_none m s : (forall n key, In (Note n key) s -> n <> m) -> notes m s = [].
+Proof.
+  induction s as [|e s IH]; intros H; simpl; [reflexivity|].
+  destruct e; try (apply IH; intros n0 key0 Hin; apply (H n0 key0); right; exact Hin).
+  destruct (Nat.eqb_spec m n) as [->|N].
+  - exfalso. apply (H n key); [left; reflexivity | reflexivity].
+  - apply IH. intros n0 key0 Hin. apply (H n0 key0). right. exact Hin.
+Qed.
+Lemma tags_lt_fresh s : tags_lt s -> notes (length s) s = [].
+Proof. intros H. apply notes_none. intros n key Hin. specialize (H n key Hin). lia. Qed.
+Lemma tags_lt_cons e s : (forall n key, e = Note n key -> n < length s) -> tags_lt s -> tags_lt (e :: s).
+Proof.
+  intros He H n key [Heq|Hin]; simpl.
+  - specialize (He n key Heq). lia.
+  - specialize (H n key Hin). lia.
+Qed.
+
+Definition R2 {T} (R : store -> T -> Prop) (o : store * signal) (o' : T * signal) : Prop :=
+  snd o = snd o' /\ R (fst o) (fst o').
+Definition ksim {T A} (R : store -> T -> Prop) (k : A -> store -> store * signal) (k' : A -> T -> T * signal) : Prop :=
+  forall a s t, R s t -> R2 R (k a s) (k' a t).
+(* the relation survives every event the evaluator writes (scratch entries only of frames at or above [lo]) and implies
+   well-formed tags *)
+Definition Rok {T} (lo : nat) (R : store -> T -> Prop) : Prop :=
+  (forall e s t, is_yield e = false -> (forall n key, e = Note n key -> lo <= n /\ n < length s) -> R s t -> R (e :: s) t)
+  /\ (forall s t, R s t -> tags_lt s /\ lo <= length s).
+
+Lemma andthen_sim {T} (R : store -> T -> Prop) o o' f f' :
+  R2 R o o' -> (forall s t, R s t -> R2 R (f s) (f' t)) -> R2 R (andthen o f) (andthen o' f').
+Proof.
+  destruct o as [s sg], o' as [t sg']. intros [H1 H2] Hf. simpl in *. subst sg'.
+  destruct sg; simpl; [apply Hf; auto | split; auto].
+Qed.
+
+Lemma each_sim {T A B} (R : store -> T -> Prop) (g : A -> B) (f : A -> store -> store * signal) (k' : B -> T -> T * signal) l :
+  (forall a s t, R s t -> R2 R (f a s) (k' (g a) t)) ->
+  forall s t, R s t -> R2 R (each f l s) (each k' (map g l) t).
+Proof.
+  intros H. induction l as [|a l IH]; intros s t HR; simpl; [split; auto|].
+  apply andthen_sim; auto.
+Qed.
+
+(* the scratch-threading consumer of Exists on the list-monad side, and what it computes *)
+Definition exists_k' {T} (others : list var) (k' : res -> T -> T * signal)
+           (p : res) (ts : T * list (list (option val))) : (T * list (list (option val))) * signal :=
+  if snd p then (ts, Continue)
+  else let key := map (lookup (fst p)) others in
+       if existsb (key_eqb key) (snd ts) then (ts, Continue)
+       else let o := k' (fst p, false) (fst ts) in ((fst o, key :: snd ts), snd o).
+
+Lemma exists_each {T} others (k' : res -> T -> T * signal) rs : forall ts,
+  fst (fst (each (exists_k' others k') rs ts)) = fst (each k' (exists_scan others (snd ts) rs) (fst ts)) /\
+  snd (each (exists_k' others k') rs ts) = snd (each k' (exists_scan others (snd ts) rs) (fst ts)).
+Proof.
+  induction rs as [|[b1 f] rs IH]; intros [t seen]; simpl; [split; reflexivity|].
+  unfold exists_k' at 1 3. simpl. destruct f; simpl; [apply (IH (t, seen))|].
+  destruct (existsb (key_eqb (map (lookup b1) others)) seen); simpl; [apply (IH (t, seen))|].
+  destruct (k' (b1, false) t) as [t2 [|]]; simpl; [|split; reflexivity].
+  apply (IH (t2, map (lookup b1) others :: seen)).
+Qed.
+
+(* the value the ForAll loop computes does not depend on the log, and is the list-monad model's *)
+Section ForAllVal.
+  Variable evalc : binds -> list res.
+  Variable others : list var.
+
+  Fixpoint fa_vals (bvs : list binds) (S : option (list binds)) : option (list binds) :=
+    match bvs with
+    | [] => S
+    | bv :: rest =>
+        match (match S with None => candidates evalc others bv | Some ss => narrow evalc bv ss end) with
+        | [] => Some []
+        | S' => fa_vals rest (Some S')
+        end
+    end.
+  Lemma fold_narrow_nil bvs : fold_left (fun ss bv => narrow evalc bv ss) bvs [] = [].
+  Proof. induction bvs; simpl; auto. Qed.
+  Lemma fa_vals_some bvs : forall ss, fa_vals bvs (Some ss) = Some (fold_left (fun ss0 bv => narrow evalc bv ss0) bvs ss).
+  Proof.
+    induction bvs as [|bv rest IH]; intros ss; simpl; [reflexivity|].
+    destruct (narrow evalc bv ss) eqn:E; [now rewrite fold_narrow_nil | apply IH].
+  Qed.
+  Lemma fa_vals_none bv rest :
+    fa_vals (bv :: rest) None = Some (fold_left (fun ss0 bv0 => narrow evalc bv0 ss0) rest (candidates evalc others bv)).
+  Proof. simpl. destruct (candidates evalc others bv) eqn:E; [now rewrite fold_narrow_nil | apply fa_vals_some]. Qed.
+
+  Lemma fa_loop_val trc y b ivs : forall S s,
+    fst (fa_loop trc evalc y others b ivs S s) = fa_vals (map (fun iv : nat * val => (y, snd iv) :: b) ivs) S.
+  Proof.
+    induction ivs as [|iv rest IH]; intros S s; simpl; [reflexivity|].
+    assert (E : fst (fa_step trc evalc others ((y, snd iv) :: b) S (touch y (fst iv) s))
+                = match S with None => candidates evalc others ((y, snd iv) :: b) | Some ss => narrow evalc ((y, snd iv) :: b) ss end)
+      by (destruct S; reflexivity).
+    rewrite E. destruct (match S with None => _ | Some ss => _ end); [reflexivity | apply IH].
+  Qed.
+End ForAllVal.
+
+Section Sim.
+  Variable W : world.
+  Variable D : domains.
+
+  Section WithR.
+    Variable T : Type.
+    Variable R : store -> T -> Prop.
+    Variable lo : nat.
+    Hypothesis HR : Rok lo R.
+
+    Lemma R_plain e s t : is_yield e = false -> (forall n key, e <> Note n key) -> R s t -> R (e :: s) t.
+    Proof. intros H1 H2 H. apply (proj1 HR); auto. intros n key E. exfalso. apply (H2 n key E). Qed.
+    Lemma R_touch x i s t : R s t -> R (touch x i s) t.
+    Proof. unfold touch. intros H. destruct (i <? npulls x s); auto. apply R_plain; auto. intros n key E; discriminate. Qed.
+    Lemma R_finish x s t : R s t -> R (finish x s) t.
+    Proof. unfold finish. intros H. destruct (ended x s); auto. apply R_plain; auto. intros n key E; discriminate. Qed.
+    Lemma R_get v a s t : R s t -> R (get_ev v a s) t.
+    Proof. unfold get_ev. intros H. destruct v; auto. apply R_plain; auto. intros n key E; discriminate. Qed.
+
+    Lemma enum_sim x (k : val -> store -> store * signal) (k' : val -> T -> T * signal) :
+      ksim R k k' -> forall s t, R s t -> R2 R (enum D x k s) (each k' (D x) t).
+    Proof.
+      intros Hk s t HRst. unfold enum, indexed.
+      rewrite <- (andthen_ret (each k' (D x) t)).
+      apply andthen_sim.
+      - replace (each k' (D x) t) with (each k' (map snd (combine (seq 0 (length (D x))) (D x))) t)
+          by (now rewrite map_snd_indexed).
+        apply each_sim; auto. intros iv s0 t0 H0. apply Hk. apply R_touch; auto.
+      - intros s' t' H'. split; simpl; auto. apply R_finish; auto.
+    Qed.
+
+    Lemma opnd_sim e : forall b (k : binds * val -> store -> store * signal) k',
+      ksim R k k' -> forall s t, R s t -> R2 R (tr_opnd W D e b k s) (each k' (ev_opnd W D e b) t).
+    Proof.
+      induction e as [v|x|e IH a]; intros b k k' Hk s t HRst; simpl.
+      - rewrite andthen_ret. apply Hk; auto.
+      - destruct (lookup b x) as [v|].
+        + rewrite each_one. apply Hk; auto.
+        + rewrite each_map. apply enum_sim; auto. intros v s0 t0 H0. apply Hk; auto.
+      - rewrite each_map. apply IH; auto. intros p s0 t0 H0. apply Hk. apply R_get; auto.
+    Qed.
+
+    (* the ForAll loop, given that evaluating its condition with a consumer that hands nothing out keeps the relation *)
+    Section ForAllSim.
+      Variable trc : binds -> (res -> store -> store * signal) -> store -> store * signal.
+      Variable evalc : binds -> list res.
+      Variable y : var.
+      Variable others : list var.
+      Hypothesis full_sim : forall b s t, R s t -> R (drain_full trc b s) t.
+      Hypothesis first_sim : forall b s t, R s t -> R (drain_first trc b s) t.
+
+      Lemma narrow_events_sim bv ss : forall s t, R s t -> R (narrow_events trc bv ss s) t.
+      Proof. unfold narrow_events. induction ss as [|s1 ss IH]; intros s t H; simpl; auto. Qed.
+      Lemma fa_step_sim bv S s t : R s t -> R (snd (fa_step trc evalc others bv S s)) t.
+      Proof. intros H. destruct S; simpl; [apply narrow_events_sim | apply full_sim]; auto. Qed.
+      Lemma fa_loop_sim b ivs : forall S s t, R s t -> R (snd (fa_loop trc evalc y others b ivs S s)) t.
+      Proof.
+        induction ivs as [|iv rest IH]; intros S s t H; simpl; [apply R_finish; auto|].
+        pose proof (fa_step_sim ((y, snd iv) :: b) S _ t (R_touch y (fst iv) s t H)) as H1.
+        destruct (fst (fa_step trc evalc others ((y, snd iv) :: b) S (touch y (fst iv) s))); simpl; auto.
+      Qed.
+    End ForAllSim.
+  End WithR.
+
+  Lemma cond_sim c : forall T (R : store -> T -> Prop) lo, Rok lo R ->
+    forall b (k : res -> store -> store * signal) k',
+    ksim R k k' -> (forall n, lo <= n -> kq n k) ->
+    forall s t, R s t -> R2 R (tr_cond W D c b k s) (each k' (eval W D c b) t).
+  Proof.
+    induction c as [op l r|l IHl r IHr|l IHl r IHr|l IHl r IHr|c IH|e c IH|y c IH];
+      intros T R lo HR b k k' Hk Hq s t HRst.
+    - simpl. unfold ev_cmp. destruct (right_first b r); rewrite each_flat_map.
+      + eapply opnd_sim; eauto. intros p1 s1 t1 H1. rewrite each_map. eapply opnd_sim; eauto.
+        intros p2 s2 t2 H2. apply Hk; auto.
+      + eapply opnd_sim; eauto. intros p1 s1 t1 H1. rewrite each_map. eapply opnd_sim; eauto.
+        intros p2 s2 t2 H2. apply Hk; auto.
+    - simpl. rewrite each_flat_map. eapply IHl; eauto.
+      + intros p s1 t1 H1. destruct (snd p).
+        * rewrite each_one. apply Hk; auto.
+        * eapply IHr; eauto.
+      + intros n Hn p s1 H1. destruct (snd p); [apply Hq; auto | apply cond_Q; auto].
+    - simpl. rewrite each_flat_map. eapply IHl; eauto.
+      + intros p s1 t1 H1. destruct (snd p).
+        * eapply IHr; eauto.
+        * rewrite each_one. apply Hk; auto.
+      + intros n Hn p s1 H1. destruct (snd p); [apply cond_Q; auto | apply Hq; auto].
+    - simpl. rewrite each_app. apply andthen_sim.
+      + rewrite each_flat_map. eapply IHl; eauto.
+        * intros p s1 t1 H1. destruct (snd p).
+          -- eapply IHr; eauto.
+          -- rewrite each_one. apply Hk; auto.
+        * intros n Hn p s1 H1. destruct (snd p); [apply cond_Q; auto | apply Hq; auto].
+      + intros s' t' H'. rewrite each_filter. eapply IHr; eauto.
+        * intros p s1 t1 H1. destruct (snd p); simpl; [split; auto | apply Hk; auto].
+        * intros n Hn p s1 H1. destruct (snd p); [apply Q_refl | apply Hq; auto].
+        * apply (proj1 HR); auto. intros n key E; discriminate.
+    - simpl. rewrite each_map. eapply IH; eauto.
+      + intros p s1 t1 H1. apply Hk; auto.
+      + intros n Hn p s1 H1. apply Hq; auto.
+    - (* Exists *)
+      simpl. set (others := exists_others e c). set (fid := length s).
+      destruct (proj2 HR s t HRst) as [Htags Hlo].
+      pose (R' := fun (s1 : store) (ts : T * list (list (option val))) =>
+                    R s1 (fst ts) /\ notes fid s1 = snd ts /\ fid < length s1).
+      assert (HR' : Rok (S fid) R').
+      { split.
+        - intros ev s1 ts Hy Htag (H1 & H2 & H3). split; [|split].
+          + apply (proj1 HR); auto. intros n key E. destruct (Htag n key E). unfold fid in *. lia.
+          + rewrite notes_cons_other; auto. destruct ev; simpl; auto.
+            destruct (Htag n key eq_refl). apply Nat.eqb_neq. lia.
+          + simpl. lia.
+        - intros s1 ts (H1 & H2 & H3). destruct (proj2 HR _ _ H1). split; auto. }
+      pose (kx := fun (p : res) (s1 : store) =>
+                         if snd p then (s1, Continue)
+                         else if existsb (key_eqb (map (lookup (fst p)) others)) (notes fid s1) then (s1, Continue)
+                              else k (fst p, false) (Note fid (map (lookup (fst p)) others) :: s1)).
+      assert (Hsim' : ksim R' kx
+                       (exists_k' others k')).
+      { intros p s1 [t1 seen] (H1 & H2 & H3). unfold exists_k', kx. simpl in *.
+        destruct (snd p); [split; [reflexivity | split; auto]|].
+        rewrite H2. destruct (existsb _ seen); [split; [reflexivity | split; auto]|].
+        set (key := map (lookup (fst p)) others).
+        assert (HRn : R (Note fid key :: s1) t1).
+        { apply (proj1 HR); auto. intros n key0 E. inversion E; subst. unfold fid in *. lia. }
+        destruct (Hk (fst p, false) _ _ HRn) as [Hs Hr].
+        assert (HL : fid < length (Note fid key :: s1)) by (simpl; lia).
+        destruct (Hq fid Hlo (fst p, false) _ HL) as [HE HN].
+        split; [exact Hs|]. split; [exact Hr|]. split.
+        - simpl. rewrite HN. simpl. now rewrite Nat.eqb_refl, H2.
+        - pose proof (Ext_length _ _ HE). simpl in *. lia. }
+      assert (Hq' : forall n, S fid <= n -> kq n kx).
+      { intros n Hn p s1 H1. unfold kx. destruct (snd p); [apply Q_refl|]. destruct (existsb _ _); [apply Q_refl|].
+        eapply Q_trans; [apply (Q_cons n (Note fid (map (lookup (fst p)) others)) s1); simpl; apply Nat.eqb_neq; lia|].
+        apply Hq; [lia | simpl; lia]. }
+      assert (HR0 : R' (Frame fid :: s) (t, [])).
+      { split; [|split]; simpl.
+        - apply (proj1 HR); auto. intros n key E; discriminate.
+        - apply tags_lt_fresh; auto.
+        - unfold fid. lia. }
+      destruct (IH _ R' (S fid) HR' b kx (exists_k' others k') Hsim' Hq' _ _ HR0) as [Hs (Hr & _ & _)].
+      destruct (exists_each others k' (eval W D c b) (t, [])) as [E1 E2]. simpl in E1, E2.
+      split; [etransitivity; [exact Hs | exact E2] | rewrite <- E1; exact Hr].
+    - (* ForAll *)
+      simpl. set (others := remove_var y (cond_vars c)).
+      assert (Hfull : forall b0 s0 t0, R s0 t0 -> R (drain_full (tr_cond W D c) b0 s0) t0).
+      { intros b0 s0 t0 H0. unfold drain_full.
+        destruct (IH _ R lo HR b0 (fun _ s1 => (s1, Continue)) (fun _ t1 => (t1, Continue))
+                     (fun _ s1 t1 H1 => conj eq_refl H1) (fun n Hn a s1 H1 => Q_refl n s1) _ _ H0) as [_ H].
+        now rewrite each_skip in H. }
+      assert (Hfirst : forall b0 s0 t0, R s0 t0 -> R (drain_first (tr_cond W D c) b0 s0) t0).
+      { intros b0 s0 t0 H0. unfold drain_first.
+        destruct (IH _ R lo HR b0 (fun _ s1 => (s1, Stop)) (fun _ t1 => (t1, Stop))
+                     (fun _ s1 t1 H1 => conj eq_refl H1) (fun n Hn a s1 H1 => Q_refl n s1) _ _ H0) as [_ H].
+        now rewrite each_stop in H. }
+      destruct (lookup b y) as [v|] eqn:Hy.
+      + simpl. rewrite (each_map _ k). apply each_sim; [intros a s1 t1 H1; apply Hk; auto|]. apply Hfull; auto.
+      + rewrite (fa_loop_val (eval W D c) others (tr_cond W D c) y b (indexed (D y)) None s).
+        pose proof (fa_loop_sim _ R lo HR (tr_cond W D c) (eval W D c) y others Hfull Hfirst b (indexed (D y)) None s t HRst) as HL.
+        assert (Em : map (fun iv : nat * val => (y, snd iv) :: b) (indexed (D y)) = map (fun v => (y, v) :: b) (D y)).
+        { unfold indexed. rewrite <- (map_snd_indexed (D y) 0) at 3. now rewrite map_map. }
+        rewrite Em. destruct (map (fun v => (y, v) :: b) (D y)) as [|bv0 bvs].
+        * simpl. rewrite andthen_ret. apply Hk; auto.
+        * rewrite fa_vals_none. rewrite (each_map _ k). apply each_sim; [intros a s1 t1 H1; apply Hk; auto | exact HL].
+  Qed.
+  Lemma select_sim sels : forall T (R : store -> T -> Prop) lo, Rok lo R ->
+    forall b (k : list val -> store -> store * signal) k',
+    ksim R k k' -> forall s t, R s t -> R2 R (tr_select W D sels b k s) (each k' (select W D sels b) t).
+  Proof.
+    induction sels as [|e ss IH]; intros T R lo HR b k k' Hk s t HRst; simpl.
+    - rewrite andthen_ret. apply Hk; auto.
+    - rewrite each_flat_map. eapply opnd_sim; eauto. intros p s1 t1 H1. rewrite each_map.
+      eapply IH; eauto. intros row s2 t2 H2. apply Hk; auto.
+  Qed.
+
+  Lemma run_sim q : forall T (R : store -> T -> Prop) lo, Rok lo R ->
+    forall (k : list val -> store -> store * signal) k',
+    ksim R k k' -> (forall n, lo <= n -> kq n k) ->
+    forall s t, R s t -> R2 R (tr_run W D q k s) (each k' (run W D q) t).
+  Proof.
+    intros T R lo HR k k' Hk Hq s t HRst. unfold tr_run, run, true_results.
+    destruct (q_cond q) as [c|].
+    - rewrite each_flat_map, each_map, each_filter.
+      eapply cond_sim; eauto.
+      + intros p s1 t1 H1. destruct (snd p); simpl; [split; auto | eapply select_sim; eauto].
+      + intros n Hn p s1 H1. destruct (snd p); [apply Q_refl | apply select_Q; auto].
+    - simpl. rewrite app_nil_r. eapply select_sim; eauto.
+  Qed.
+End Sim.
+
+(* ---- instance: the rows handed out ---- *)
+Lemma rows_of_app a b : rows_of (a ++ b) = rows_of a ++ rows_of b.
+Proof. induction a as [|e a IH]; simpl; [reflexivity|]. destruct e; simpl; rewrite ?IH; reflexivity. Qed.
+Lemma rows_of_rev s : rows_of (rev s) = rev (rows_of s).
+Proof.
+  induction s as [|e s IH]; simpl; [reflexivity|]. rewrite rows_of_app, IH.
+  destruct e; simpl; rewrite ?app_nil_r; reflexivity.
+Qed.
+Lemma nyields_rows s : nyields s = length (rows_of s).
+Proof. unfold nyields. induction s as [|e s IH]; simpl; [reflexivity|]. destruct e; simpl; auto. Qed.
+Lemma rows_of_nonyield e s : is_yield e = false -> rows_of (e :: s) = rows_of s.
+Proof. destruct e; simpl; auto; discriminate. Qed.
+
+Definition take' (n : nat) (row : list val) (t : list (list val)) : list (list val) * signal :=
+  let t' := row :: t in (t', if n <=? length t' then Stop else Continue).
+Definition take_all' (row : list val) (t : list (list val)) : list (list val) * signal := (row :: t, Continue).
+
+Lemma each_take' n l : forall t, length t < n -> fst (each (take' n) l t) = rev (firstn (n - length t) l) ++ t.
+Proof.
+  induction l as [|a l IH]; intros t Ht; simpl.
+  - now rewrite firstn_nil.
+  - destruct (Nat.leb_spec n (S (length t))); simpl.
+    + replace (n - length t) with 1 by lia. reflexivity.
+    + rewrite IH by (simpl; lia). simpl length.
+      replace (n - length t) with (S (n - S (length t))) by lia. simpl. now rewrite <- app_assoc.
+Qed.
+Lemma each_take_all' l : forall t, fst (each take_all' l t) = rev l ++ t.
+Proof. induction l as [|a l IH]; intros t; simpl; [reflexivity|]. rewrite IH. now rewrite <- app_assoc. Qed.
+
+Lemma rows_of_plain e s : is_yield e = false -> rows_of (e :: s) = rows_of s.
+Proof. apply rows_of_nonyield. Qed.
+Lemma kq_cons_yield {A} n (k : A -> store -> store * signal) :
+  (forall a s, exists r, fst (k a s) = Yield r :: s) -> kq n k.
+Proof. intros H a s Hn. destruct (H a s) as [r ->]. apply Q_cons. reflexivity. Qed.
+Lemma take_kq m n : kq n (take m).
+Proof. apply kq_cons_yield. intros row s. exists row. reflexivity. Qed.
+Lemma take_all_kq n : kq n take_all.
+Proof. apply kq_cons_yield. intros row s. exists row. reflexivity. Qed.
+
+Section Bridge.
+  Variable W : world.
+  Variable D : domains.
+  (* rows handed out so far, on top of those of earlier evaluations [r0] *)
+  Definition Rrows (r0 : list (list val)) (s : store) (t : list (list val)) : Prop := rows_of s = t ++ r0 /\ tags_lt s.
+
+  Lemma Rrows_ok r0 : Rok 0 (Rrows r0).
+  Proof.
+    split.
+    - intros e s t He Htag [H1 H2]. split; [rewrite rows_of_nonyield; auto|].
+      apply tags_lt_cons; auto. intros n key E. destruct (Htag n key E). lia.
+    - intros s t [H1 H2]. split; [auto | lia].
+  Qed.
+
+  Lemma take_sim r0 n : ksim (Rrows r0) (take (length r0 + n)) (take' n).
+  Proof.
+    intros row s t [H1 H2]. unfold take, take', R2, Rrows. simpl fst. simpl snd. split; [|split].
+    - rewrite !nyields_rows. simpl rows_of. rewrite H1. simpl length. rewrite app_length.
+      destruct (Nat.leb_spec (length r0 + n) (S (length t + length r0)));
+        destruct (Nat.leb_spec n (S (length t))); auto; lia.
+    - simpl. now rewrite H1.
+    - apply tags_lt_cons; auto. intros n0 key E; discriminate.
+  Qed.
+  Lemma take_all_sim r0 : ksim (Rrows r0) take_all take_all'.
+  Proof.
+    intros row s t [H1 H2]. unfold take_all, take_all', R2, Rrows. simpl. split; [reflexivity|]. split.
+    - now rewrite H1.
+    - apply tags_lt_cons; auto. intros n0 key E; discriminate.
+  Qed.
+
+  (* the instrumented evaluator hands out exactly the rows of the list-monad model, in order *)
+  Theorem trace_full_rows q : rows_of (trace_full W D q) = run W D q.
+  Proof.
+    unfold trace_full. rewrite rows_of_rev.
+    destruct (run_sim W D q _ _ 0 (Rrows_ok []) take_all take_all' (take_all_sim []) (fun n _ => take_all_kq n)
+                      [] [] (conj eq_refl tags_lt_nil)) as [_ [H _]].
+    rewrite H, app_nil_r, each_take_all', app_nil_r. apply rev_involutive.
+  Qed.
+
+  (* the run stopped after n rows handed out the first n rows *)
+  Theorem trace_k_rows q n : rows_of (trace_k W D q n) = firstn n (run W D q).
+  Proof.
+    destruct n as [|n]; [reflexivity|]. unfold trace_k. rewrite rows_of_rev.
+    destruct (run_sim W D q _ _ 0 (Rrows_ok []) (take (S n)) (take' (S n)) (take_sim [] (S n)) (fun m _ => take_kq (S n) m)
+                      [] [] (conj eq_refl tags_lt_nil)) as [_ [H _]].
+    rewrite H, app_nil_r, each_take' by (simpl; lia). simpl length. rewrite Nat.sub_0_r, app_nil_r.
+    apply rev_involutive.
+  Qed.
+End Bridge.
+
+(* ================= 2. stopping earlier gives a prefix of the log ================= *)
+Section Prefix.
+  Variable W : world.
+  Variable D : domains.
 
   Lemma enum_rel x kA kB : krel kA kB -> kmono kB -> forall s, Rel (enum D x kA s) (enum D x kB s).
   Proof.
@@ -350,8 +744,7 @@ Section Prefix.
   Lemma cond_rel c : forall b kA kB, krel kA kB -> kmono kB ->
     forall s, Rel (tr_cond W D c b kA s) (tr_cond W D c b kB s).
   Proof.
-    induction c as [op l r|l IHl r IHr|l IHl r IHr|l IHl r IHr|c IH|e c IH|y c IH]; intros b kA kB Hr Hm s; simpl;
-      try reflexivity.
+    induction c as [op l r|l IHl r IHr|l IHl r IHr|l IHl r IHr|c IH|e c IH|y c IH]; intros b kA kB Hr Hm s; simpl.
     - destruct (right_first b r).
       + apply opnd_rel.
         * intros p1 s1. apply opnd_rel; [intros p2 s2; apply Hr | intros p2 s2; apply Hm].
@@ -372,10 +765,17 @@ Section Prefix.
       + intros s'. apply IHr.
         * intros p s1. destruct (snd p); [reflexivity | apply Hr].
         * intros p s1. destruct (snd p); [apply Ext_refl | apply Hm].
-      + intros s'. apply cond_mono; auto. intros p s1. destruct (snd p); [apply Ext_refl | apply Hm].
+      + intros s'. eapply Ext_trans; [apply Ext_cons|]. apply cond_mono; auto. intros p s1. destruct (snd p); [apply Ext_refl | apply Hm].
     - apply IH.
       + intros p s1. apply Hr.
       + intros p s1. apply Hm.
+    - apply IH.
+      + intros p s1. destruct (snd p); [reflexivity|]. destruct (existsb _ _); [reflexivity | apply Hr].
+      + intros p s1. destruct (snd p); [apply Ext_refl|]. destruct (existsb _ _); [apply Ext_refl|].
+        eapply Ext_trans; [apply Ext_cons | apply Hm].
+    - destruct (lookup b y).
+      + apply each_rel; auto.
+      + destruct (fst (fa_loop _ _ _ _ _ _ _ _)); [apply each_rel; auto | apply Hr].
   Qed.
 
   Lemma select_rel sels : forall b kA kB, krel kA kB -> kmono kB ->
@@ -398,10 +798,6 @@ Section Prefix.
     - intros p s1. destruct (snd p); [apply Ext_refl | apply select_mono; auto].
   Qed.
 
-  Lemma take_mono n : kmono (take n).
-  Proof. intros row s. unfold take. simpl. apply Ext_cons. Qed.
-  Lemma take_all_mono : kmono take_all.
-  Proof. intros row s. unfold take_all. simpl. apply Ext_cons. Qed.
   Lemma take_rel_S n : krel (take n) (take (S n)).
   Proof.
     intros row s. unfold take, Rel.
@@ -494,6 +890,36 @@ Proof.
   apply andthen_inv; auto.
 Qed.
 
+Section ForAllInv.
+  Variable trc : binds -> (res -> store -> store * signal) -> store -> store * signal.
+  Variable evalc : binds -> list res.
+  Variable y : var.
+  Variable others : list var.
+  Hypothesis trc_mono : forall b k, kmono k -> forall s, Ext s (fst (trc b k s)).
+  Hypothesis trc_inv : forall b k, kmono k -> kinv k -> forall s, Inv s -> Inv (fst (trc b k s)).
+
+  Lemma drain_full_inv b s : Inv s -> Inv (drain_full trc b s).
+  Proof. intros H. unfold drain_full. apply trc_inv; auto; [intros a s1; apply Ext_refl | intros a s1 H1; exact H1]. Qed.
+  Lemma drain_first_inv b s : Inv s -> Inv (drain_first trc b s).
+  Proof. intros H. unfold drain_first. apply trc_inv; auto; [intros a s1; apply Ext_refl | intros a s1 H1; exact H1]. Qed.
+  Lemma narrow_events_inv bv ss : forall s, Inv s -> Inv (narrow_events trc bv ss s).
+  Proof.
+    unfold narrow_events. induction ss as [|s1 ss IH]; intros s H; simpl; auto. apply IH, drain_first_inv; auto.
+  Qed.
+  Lemma fa_step_inv bv S s : Inv s -> Inv (snd (fa_step trc evalc others bv S s)).
+  Proof. intros H. destruct S; simpl; [apply narrow_events_inv | apply drain_full_inv]; auto. Qed.
+  Lemma fa_loop_inv b l : forall i S s, Inv s -> i <= npulls y s ->
+    Inv (snd (fa_loop trc evalc y others b (combine (seq i (length l)) l) S s)).
+  Proof.
+    induction l as [|v l IH]; intros i S s Hs Hi; simpl; [apply Inv_finish; auto|].
+    destruct (Inv_touch y i s Hi Hs) as [H1 H2].
+    pose proof (fa_step_inv ((y, v) :: b) S _ H1) as H3.
+    pose proof (npulls_Ext y _ _ (fa_step_mono trc evalc others trc_mono ((y, v) :: b) S (touch y i s))) as H4.
+    destruct (fst (fa_step trc evalc others ((y, v) :: b) S (touch y i s))); simpl; auto.
+    apply IH; auto. lia.
+  Qed.
+End ForAllInv.
+
 Section Order.
   Variable W : world.
   Variable D : domains.
@@ -530,7 +956,7 @@ Section Order.
 
   Lemma cond_inv c : forall b k, kmono k -> kinv k -> forall s, Inv s -> Inv (fst (tr_cond W D c b k s)).
   Proof.
-    induction c as [op l r|l IHl r IHr|l IHl r IHr|l IHl r IHr|c IH|e c IH|y c IH]; intros b k Hm Hk s Hs; simpl; auto.
+    induction c as [op l r|l IHl r IHr|l IHl r IHr|l IHl r IHr|c IH|e c IH|y c IH]; intros b k Hm Hk s Hs; simpl.
     - destruct (right_first b r); apply opnd_inv; auto.
       + intros p1 s1. apply opnd_mono. intros p2 s2. apply Hm.
       + intros p1 s1 H1. apply opnd_inv; auto; [intros p2 s2; apply Hm | intros p2 s2; apply Hk].
@@ -552,6 +978,19 @@ Section Order.
     - apply IH; auto.
       + intros p s1. apply Hm.
       + intros p s1. apply Hk.
+    - apply IH.
+      + intros p s1. destruct (snd p); [apply Ext_refl|]. destruct (existsb _ _); [apply Ext_refl|].
+        eapply Ext_trans; [apply Ext_cons | apply Hm].
+      + intros p s1 H1. destruct (snd p); [exact H1|]. destruct (existsb _ _); [exact H1|].
+        apply Hk. apply Inv_nonpull; auto.
+      + apply Inv_nonpull; auto.
+    - assert (Hmc : forall b0 k0, kmono k0 -> forall s0, Ext s0 (fst (tr_cond W D c b0 k0 s0))) by (intros; apply cond_mono; auto).
+      destruct (lookup b y).
+      + apply each_inv; auto.
+        apply (drain_full_inv (tr_cond W D c) (fun b0 k0 H0 H1 => IH b0 k0 H0 H1)); auto.
+      + pose proof (fa_loop_inv (tr_cond W D c) (eval W D c) y (remove_var y (cond_vars c)) Hmc
+                                (fun b0 k0 H0 H1 => IH b0 k0 H0 H1) b (D y) 0 None s Hs (Nat.le_0_l _)) as H.
+        unfold indexed. destruct (fst (fa_loop _ _ _ _ _ _ _ _)); [apply each_inv; auto | apply Hk; auto].
   Qed.
 
   Lemma select_inv sels : forall b k, kmono k -> kinv k -> forall s, Inv s -> Inv (fst (tr_select W D sels b k s)).
@@ -625,28 +1064,21 @@ Section Seq.
 
   (* the rows of a later evaluation are again the first m rows of that query: what an earlier, abandoned evaluation left
      in the domain caches does not change them *)
-  Lemma run_from_rows q m s : qfree_o (q_cond q) = true ->
-    rows_of (run_from W D q m s) = rev (firstn m (run W D q)) ++ rows_of s.
+  Lemma run_from_rows q m s : tags_lt s ->
+    rows_of (run_from W D q m s) = rev (firstn m (run W D q)) ++ rows_of s /\ tags_lt (run_from W D q m s).
   Proof.
-    intros Hq. destruct m as [|m]; [reflexivity|]. unfold run_from.
-    set (r0 := rows_of s).
-    pose (R := fun (s1 : store) (t : list (list val)) => rows_of s1 = t ++ r0).
-    assert (Rev : forall e s1 t, is_yield e = false -> R s1 t -> R (e :: s1) t).
-    { unfold R. intros e s1 t He H. rewrite rows_of_nonyield; auto. }
-    assert (Hk : ksim (list (list val)) R (take (nyields s + S m)) (take' (S m))).
-    { intros row s1 t H. unfold R in H. unfold take, take', R2, R. simpl fst. simpl snd. split.
-      - rewrite !nyields_rows. simpl rows_of. rewrite H. fold r0. simpl length. rewrite app_length.
-        destruct (Nat.leb_spec (length r0 + S m) (S (length t + length r0)));
-          destruct (Nat.leb_spec m (length t)); auto; lia.
-      - simpl. now rewrite H. }
-    destruct (run_sim W D _ R Rev q _ _ Hq Hk s [] eq_refl) as [_ H].
-    unfold R in H. rewrite H, each_take' by (simpl; lia). simpl length. now rewrite Nat.sub_0_r, app_nil_r.
+    intros Ht. destruct m as [|m]; [split; auto|]. unfold run_from. rewrite nyields_rows.
+    destruct (run_sim W D q _ _ 0 (Rrows_ok (rows_of s)) _ _ (take_sim (rows_of s) (S m))
+                      (fun n _ => take_kq (length (rows_of s) + S m) n) s [] (conj eq_refl Ht)) as [_ [H1 H2]].
+    split; auto. rewrite H1, each_take' by (simpl; lia). simpl length. now rewrite Nat.sub_0_r, app_nil_r.
   Qed.
 
-  Theorem trace_seq_rows2 q1 n q2 m : qfree_o (q_cond q1) = true -> qfree_o (q_cond q2) = true ->
+  Theorem trace_seq_rows2 q1 n q2 m :
     rows_of (trace_seq W D [(q1, n); (q2, m)]) = firstn n (run W D q1) ++ firstn m (run W D q2).
   Proof.
-    intros H1 H2. unfold trace_seq, store_seq. simpl. rewrite rows_of_rev, !run_from_rows by auto. simpl.
-    rewrite app_nil_r, rev_app_distr, !rev_involutive. reflexivity.
+    unfold trace_seq, store_seq. simpl. rewrite rows_of_rev.
+    destruct (run_from_rows q1 n [] tags_lt_nil) as [H1 T1].
+    destruct (run_from_rows q2 m _ T1) as [H2 _].
+    rewrite H2, H1. simpl. rewrite app_nil_r, rev_app_distr, !rev_involutive. reflexivity.
   Qed.
 End Seq.
